@@ -322,14 +322,20 @@ def render_want(k, part, want_tokens, prog, rot):
         elif w == 'tb_short':
             last = exc_text((cls[0], cls[2], cls[2]), msg)
         lines = [hdr]
+        # stack lines between the header and the final line: real frames, an indented or a flush-left ellipsis placeholder
+        stacks = [['  File "<stdin>", line 1, in <module>', '    ...'], ['...'], ['  File "mod.py", line 3, in f', '    raise E(m)', '...'], ['    ...'],
+                  ['  ...', '  File "<doctest>", line 1, in <module>']]
         if w == 'tb_stack':
-            lines += ['  File "<stdin>", line 1, in <module>', '    ...']
+            lines += stacks[(rot // 4) % len(stacks)]
         elif rot % 4 == 1:
-            lines += ['    ...']
+            lines += stacks[1 + (rot // 4) % 3]
         lines += last.split('\n')
         return lines
     if w == 'c_replace' and rot % 5 == 0:
         return ['<BLANKLINE>'] * (1 + rot % 2)        # a wrong want that normalises to nothing
+    if w == 'nontb' and rot % 7 == 3:
+        # a traceback header without a final 'Type: message' line is not a traceback block either
+        return [['Traceback (most recent call last):', '...'], ['Traceback (most recent call last):', '    ...'], ['Traceback (most recent call last):']][rot % 3]
     if w == 'nontb' and rot % 3:
         return [tok_text(t, prog) for t in want_tokens] + ['second line of text %d' % k] * (rot % 3)
     return [tok_text(t, prog) for t in want_tokens]
